@@ -202,6 +202,8 @@ func knownFindingReproducers(c *Ctx) {
 		{"nil-pointer-field-op", "var p *struct{ a int }; p.a++"},
 		{"nil-pointer-load", "var p *int; _ = *p"},
 		{"nil-pointer-store", "var p *int; *p = 1"},
+		{"nil-pointer-op", "var p *int; *p += 1"},
+		{"nil-struct-pointer-load", "var p *struct{ a int }; _ = *p"},
 		{"nil-array-pointer-set", "var p *[2]int; p[1] = 2"},
 		{"nil-array-pointer-range", "var p *[2]int; for i, x := range p { _, _ = i, x }"},
 		{"defer-nil-func", "var f func(); defer f()"},
